@@ -676,6 +676,17 @@ def desugar_bool_adapters(root):
             none = {"k": "def", "dk": "ctor_variant", "path": "core::option::Option::None", "ty": n.get("ty"), "sp": n.get("sp")}
             holder[key] = {"k": "if", "cond": n["recv"], "then": {"k": "blockexpr", "b": {"k": "block", "stmts": [], "tail": some}, "ty": n.get("ty")},
                            "else": {"k": "blockexpr", "b": {"k": "block", "stmts": [], "tail": none}, "ty": n.get("ty")}, "ty": n.get("ty"), "sp": n.get("sp"), "desugared": n["name"]}
+        if n.get("k") == "mcall" and n["name"] == "filter" and len(n.get("args", [])) == 1 and "Option" in (n.get("path") or "") and "Option<" in str(n.get("ty", "")):
+            # `x.filter(|_| c)` with a closure that ignores its argument is `if c { x } else { None }`
+            cl = n["args"][0]
+            while cl.get("k") == "ref":
+                cl = cl["e"]
+            if cl.get("k") == "closure" and len(cl.get("params", [])) == 1:
+                bound = {i for _, i in pat_bindings(cl["params"][0])}
+                if not any(x.get("k") == "local" and x["id"] in bound for x in walk(cl["body"])):
+                    none = {"k": "def", "dk": "ctor_variant", "path": "core::option::Option::None", "ty": n.get("ty"), "sp": n.get("sp")}
+                    holder[key] = {"k": "if", "cond": cl["body"], "then": {"k": "blockexpr", "b": {"k": "block", "stmts": [], "tail": n["recv"]}, "ty": n.get("ty")},
+                                   "else": {"k": "blockexpr", "b": {"k": "block", "stmts": [], "tail": none}, "ty": n.get("ty")}, "ty": n.get("ty"), "sp": n.get("sp"), "desugared": "filter"}
     box = {"r": root}
     visit(box, "r")
     return box["r"]
@@ -690,15 +701,24 @@ def unroll_literal_loops(root):
             lets[n["pat"]["id"]] = n["init"]
 
     def array_of(it):
+        """(array literal, flattened?): `[a, b]`, `[a, b].iter()`, `[a, b].into_iter().flatten()` (elements are Options; None is skipped)"""
         it = peel(it)
-        for _ in range(4):
+        flat = False
+        for _ in range(5):
             if it.get("k") == "mcall" and it["name"] in ("into_iter", "iter") and not it["args"]:
+                it = peel(it["recv"])
+            elif it.get("k") == "mcall" and it["name"] == "flatten" and not it["args"] and not flat:
+                flat = True
                 it = peel(it["recv"])
             elif it.get("k") == "local" and it["id"] in lets:
                 it = peel(lets[it["id"]])
             else:
                 break
-        return it if it.get("k") == "array" and 1 <= len(it.get("es", [])) <= 4 else None
+        if it.get("k") == "array" and 1 <= len(it.get("es", [])) <= 4:
+            if flat and not all("Option<" in str(peel(e_).get("ty", "")) for e_ in it["es"]):
+                return None
+            return it, flat
+        return None
 
     def own_jumps(body):
         # break / continue that target this loop (not a nested one)
@@ -730,6 +750,7 @@ def unroll_literal_loops(root):
             arr = array_of(n["iter"])
             if arr is None or own_jumps(n["body"]):
                 return
+            arr, flat = arr
             copies = []
             for el in arr["es"]:
                 _COPY_COUNTER[0] += 1
@@ -741,6 +762,12 @@ def unroll_literal_loops(root):
                     for y in walk(part):
                         if y.get("k") in ("local", "pbind") and y.get("id") in bound_:
                             y["id"] = y["id"] + off_
+                if flat:
+                    # the element is an Option: its pass runs only for Some(P)
+                    some_pat = {"k": "pvariant", "path": "core::option::Option::Some", "subs": [pat_c], "ty": peel(el).get("ty")}
+                    copies.append({"k": "semi", "e": {"k": "if", "cond": {"k": "letexpr", "pat": some_pat, "init": el, "ty": "bool", "sp": n.get("sp")}, "then": body_c, "ty": "()", "sp": n.get("sp"),
+                                                      "unrolled": True}})
+                    continue
                 copies.append({"k": "semi", "e": {"k": "blockexpr", "b": {"k": "block", "stmts": [{"k": "let", "pat": pat_c, "init": el, "sp": n.get("sp"), "unrolled": True},
                                                                                                       {"k": "semi", "e": body_c}]}, "ty": "()", "sp": n.get("sp")}})
             holder[key] = {"k": "blockexpr", "b": {"k": "block", "stmts": copies}, "ty": "()", "sp": n.get("sp"), "unrolled_for": True}
